@@ -22,7 +22,7 @@ META = {
                   'description are compatible both ways), copyC_equiv (the copy validates like the original, LimitsType order test included), '
                   'rebuildC_equiv_partial.  Scaled limits: scaled_description_exact / _only_if (the integers exported as min / max denote the '
                   'limits exactly when the limits are grid aligned, wherever the float quotient limit/scale lands), snapLimits_same_behaviour '
-                  '(repaired ScaledInteger.validate, fd5b705: a tree and the tree with every scaled limit moved to its grid value have the same '
+                  '(repaired ScaledInteger.validate, 5b4d2cd: a tree and the tree with every scaled limit moved to its grid value have the same '
                   'validate / __call__ / import_value), rebuild_snaps / copy_snaps / copy_equiv_snaps / command_rebuild_snaps (rebuild_equiv and '
                   'copy_equiv for EVERY well-formed tree whose scaled limits have finite grid values, on the grid or NOT: the description is a fixed '
                   'point of the round trip, the rebuilt type / the copy validates and imports exactly like the ORIGINAL, the copy is the tree with '
@@ -84,7 +84,7 @@ META = {
                     'scaled integers have grid-aligned limits in the strict sense limit == index * scale as floats (quantifier of the '
                     'property; compatible_sound_partial / compatible_complete have it as GridAligned); a limit written as a decimal literal that is not '
                     'such a product (0.7 with scale 0.1: 7 * 0.1 = 0.7000000000000001) is outside: the round trip moves it by one ulp '
-                    '(remark in ScaledInteger.checkProperties) — since the repair fd5b705 this changes no behaviour, and the rebuild / copy streams '
+                    '(remark in ScaledInteger.checkProperties) — since the repair 5b4d2cd this changes no behaviour, and the rebuild / copy streams '
                     'judge ALL clauses (behaviour included) for such trees too, as long as the grid values of the limits are finite (judgeRebuilt: snapLimits)',
                     'relative_resolution < 1 on the second type of a pair (hypothesis ResLeOne of compatible_sound_partial; recorded finding otherwise)',
                     'datainfo given to get_datatype: enum values are JSON integers, scale is a JSON number, optional is a list',
